@@ -84,7 +84,10 @@ class C01(runner.Prop):
         objmeta = st.fixed_dictionaries({
             't': gen.tree_descs(ml, kinds=('dc', 'cn', 'cg', 'dict', 'list', 'tuple', 'od')).map(gen.with_object_metadata),
             'cfg': gen.configs()})
-        return st.one_of(general, dicty, deep, objmeta)
+        # stratum: dicts whose keys make both sort attempts fail half-way (the order is then the insertion order,
+        # and every leaf must come back under its own key)
+        halfsort = st.fixed_dictionaries({'t': gen.partially_comparable_dicts(), 'cfg': gen.configs()})
+        return st.one_of(general, dicty, deep, objmeta, halfsort)
 
     def check_case(self, case, ctx):
         cfg = gen.sound_cfg(case)
